@@ -152,7 +152,7 @@ specs = {
          "per key x admissible alg: random header/claim JSON trees (nesting<=6, unicode, 64-bit extremes, reals, empty containers, 4 KiB strings), sign under openssl|gnutls, verify under openssl|gnutls with the public half, read header+claims in the checker callback; plus ECDSA volume runs", False),
     ])'''),
  "c10": dict(doc="C10 -- generated tokens are well-formed and say exactly what the builder was told.",
-   mods=["Jwt.Props.C10"], files=["Jwt/Props/C10.lean"], gen=1,
+   mods=["Jwt.Props.C10"], files=["Jwt/Props/C10.lean"], gen=2,
    level="Lean theorems for every builder state and callback: token shape (three unpadded base64url parts, none <-> empty third), header = per-token headers with alg forced and typ defaulted (jwt_head_setup as two typed-map sets), claims = builder claims overridden by iat/nbf/exp, offsets on iff > 0 (generated __DISABLE), configuration untouched by generate, public-only keys refused. Tied to the code by configuration sequences + generate at several clocks with full token equality against the model and an independent decode against a Python builder spec.",
    assume=[],
    body='''    F.run_suites(ctx, model_ok, deep, [
